@@ -69,16 +69,16 @@ VSeq(row) == LET ms == MSeq(row, Bits) IN [i \in 1..Bits |-> ms[i] * Pow2(Bits -
 RECURSIVE Ruler(_)
 Ruler(k) == IF k % 2 = 1 THEN 1 ELSE 1 + Ruler(k \div 2)          \* k >= 1
 
-StepX(V, n, X) == [c \in DOMAIN X |-> X[c] ^^ V[c][Ruler(n + 1)]]
+StepX(V, i, Y) == LET r == Ruler(i + 1) IN [c \in DOMAIN Y |-> Y[c] ^^ V[c][r]]
 
 (* Closed form, used to enter the sequence at an arbitrary index:          *)
 (* X_n = xor of V[i] over the set bits i-1 of the Gray code n xor (n>>1).  *)
-Gray(n) == n ^^ (n \div 2)
+Gray(i) == i ^^ (i \div 2)
 RECURSIVE XorBits(_, _, _)
 XorBits(Vc, g, i) == IF g = 0 THEN 0
                      ELSE (IF g % 2 = 1 THEN Vc[i] ELSE 0) ^^ XorBits(Vc, g \div 2, i + 1)
-Direct(Vc, n) == XorBits(Vc, Gray(n), 1)
-SeekX(V, n) == [c \in DOMAIN V |-> Direct(V[c], n)]
+Direct(Vc, i) == XorBits(Vc, Gray(i), 1)
+SeekX(V, i) == [c \in DOMAIN V |-> Direct(V[c], i)]
 
 IndexOfSeed(seed) == seed - 1                \* as built: see the header
 InIndexRange(i) == i >= 0 /\ i < Pow2(Bits)
